@@ -121,10 +121,18 @@ fn ab(x: &Sx) -> R<AB> {
     let (h, a) = x.form()?;
     let v: AB = match (h, a) {
         ("periodic", [t]) => Rc::new(arrival::Periodic::new(dur(t)?)),
+        // jitter 0 and an odd period: through the second public constructor (same model value: Sporadic T 0)
+        ("sporadic", [t, j]) if j.num()? == 0 && t.num()? % 2 == 1 => {
+            Rc::new(arrival::Sporadic::new_zero_jitter(dur(t)?))
+        }
         ("sporadic", [t, j]) => Rc::new(arrival::Sporadic::new(dur(t)?, dur(j)?)),
         ("never", []) => Rc::new(arrival::Never {}),
         // ApproximatedPoisson::new(RN / RD, EN / ED): not part of the Coq model (floating point); used by
         // direct oracles only
+        // (odd RN: through Poisson::approximate, the other public way to construct it)
+        ("apoisson", [rn, rd, en, ed]) if rn.num()? % 2 == 1 => Rc::new(
+            arrival::Poisson { rate: rn.num()? as f64 / rd.num()? as f64 }.approximate(en.num()? as f64 / ed.num()? as f64),
+        ),
         ("apoisson", [rn, rd, en, ed]) => Rc::new(arrival::ApproximatedPoisson::new(
             rn.num()? as f64 / rd.num()? as f64,
             en.num()? as f64 / ed.num()? as f64,
